@@ -257,13 +257,37 @@ def run_case(case, env, res):
         image = BlockImage(src, width=W, height=H)
     alpha_arg = {"none": None, "thr": thr, "termbg": "#", "hex": "#%02x%02x%02x" % (hexbg or (0, 0, 0))}[alpha_mode]
     how = case["how"]
+    if case.get("partial"):
+        # the terminal was asked for its colours by an earlier render of an opaque picture
+        # only, then queries were disabled: whether the background then counts as known
+        # or not, one render has to go by one answer
+        refresh_queries()
+        str(BlockImage(Image.new("RGB", (1, 2), (9, 9, 9)), width=1, height=1))
+        term_image.disable_queries()
+    try:
+        out = _render(case, image, alpha_arg, alpha_mode, thr, how, W, res)
+    finally:
+        if case.get("partial"):
+            term_image.enable_queries()
+            refresh_queries()
+    if out is None:
+        return
+    _judge_render(case, env, res, out, exp, at_res, eff_alpha, thr, hexbg, termbg, on_kitty, W, H, tier, mode, alpha_mode, how)
+    if paged_path:
+        image.close()
+        import os
+
+        os.unlink(paged_path)
+
+
+def _render(case, image, alpha_arg, alpha_mode, thr, how, W, res):
     if how == "split":
         out = image._renderer(image._render_image, alpha_arg, split_cells=True)
         for ln, line in enumerate(out.split("\n")):
             n = len(line.split("\0"))
             if n != W:
                 res.violation("C02:split-cells-count", "line %d has %d NUL-separated cells, expected %d" % (ln, n, W), case)
-                return
+                return None
     elif how == "format":
         spec = "1.1" + {"none": "#", "thr": "#" + ("%.6f" % thr)[1:], "termbg": "##", "hex": alpha_arg}[alpha_mode]
         out = format(image, spec)
@@ -271,7 +295,10 @@ def run_case(case, env, res):
         out = str(image)
     else:
         out = image._renderer(image._render_image, alpha_arg)
+    return out
 
+
+def _judge_render(case, env, res, out, exp, at_res, eff_alpha, thr, hexbg, termbg, on_kitty, W, H, tier, mode, alpha_mode, how, second=False):
     vt = VTerm(H, W + 1, "other")
     vt.feed(out)
     got = cells_of(vt, W, H, termbg if on_kitty else None)
@@ -307,18 +334,19 @@ def run_case(case, env, res):
     res.sample(dict(case, rendered_bytes=len(out)))
     if vt.anomalies() or not vt.sgr_default():
         bad.append(("terminal", vt.anomalies(), vt.fg, vt.bg))
+    if bad and case.get("partial") and termbg is not None and not second:
+        # not the picture of a known background; then it has to be, consistently, the one
+        # of an unknown background (black beneath, no kitty work-around)
+        res.count("renders with partial knowledge judged against the unknown-background reading")
+        exp2 = expected_pixels(at_res, eff_alpha, thr, hexbg, None)
+        return _judge_render(dict(case, inconsistent=bad[:2]), env, res, out, exp2, at_res, eff_alpha, thr, hexbg, None, on_kitty, W, H, tier, mode, alpha_mode, how, second=True)
     if bad:
         res.violation(
             "C02:%s:%s" % (tier, alpha_mode),
-            "%s %s %s thr=%s termbg=%s kitty=%s %dx%d how=%s: %d wrong half-cells, first %r"
-            % (tier, mode, alpha_mode, thr, termbg, on_kitty, W, H, how, len(bad), bad[:3]),
+            "%s %s %s thr=%s termbg=%s kitty=%s %dx%d how=%s%s: %d wrong half-cells, first %r"
+            % (tier, mode, alpha_mode, thr, case.get("termbg"), on_kitty, W, H, how, " (colours asked for by an opaque render only, then queries disabled: matches neither the known- nor the unknown-background picture; against the former %r)" % (case.get("inconsistent"),) if second else "", len(bad), bad[:3]),
             case,
         )
-    if paged_path:
-        image.close()
-        import os
-
-        os.unlink(paged_path)
 
 
 def gen(rnd):
@@ -335,6 +363,7 @@ def gen(rnd):
         how=rnd.choice(["render", "render", "format", "split", "str"]),
         pattern=rnd.choice([None, "runs", "runs", "noise", "stripes", "alpha-edge", "uniform"]),
         use_termbg=rnd.random() < 0.5,
+        partial=rnd.random() < 0.12,
     )
     if alpha_mode == "thr":
         case["thr"] = rnd.choice([0.0, 40 / 255, 40 / 255, 0.5, 0.999, 0.1569, 0.1568, round(rnd.random() * 0.999, 6)])
